@@ -125,6 +125,12 @@ def oracle(case, stats):
             if a["label"] != o["label"] or abs(a["mass"] - o["mass"]) > 1e-12:
                 raise Violation("bystander-changed", "atom %d outside every replaced match: label/mass %r/%r -> %r/%r" %
                                 (i, o["label"], o["mass"], a["label"], a["mass"]))
+    # the result must not share arrays with the inputs: overwrite the result in place and look at the inputs again
+    mf.scribble(new)
+    if (mf.snapshot(s), mf.snapshot(sp), mf.snapshot(rp)) != snap:
+        names = ["structure", "search pattern", "replacement pattern"]
+        bad = [n for n, a, b in zip(names, snap, (mf.snapshot(s), mf.snapshot(sp), mf.snapshot(rp))) if a != b]
+        raise Violation("result-aliases-input", "modifying the returned structure in place changes the %s (shared arrays)" % ", ".join(bad))
     meta = case["meta"]
     stats.count("repl:" + meta["repl_kind"])
     stats.count("f:" + meta["f_kind"])
